@@ -36,10 +36,16 @@ class Ctx:
         self.assumptions = []
         self.notes = {}
         self.features = features
-        d, info = extract.ensure_facts(features)
+        for attempt in range(2):
+            d, info = extract.ensure_facts(features)
+            try:
+                self.ds = Facts(os.path.join(d, "dropshot.json"))
+                self.ep = Facts(os.path.join(d, "dropshot_endpoint.json"))
+                break
+            except FileNotFoundError:
+                if attempt:
+                    raise   # the fact set vanished twice (evicted by a concurrent run)
         self.extract_info = info
-        self.ds = Facts(os.path.join(d, "dropshot.json"))
-        self.ep = Facts(os.path.join(d, "dropshot_endpoint.json"))
         self.extra = {}
 
     # ------------------------------------------------------------------ rule API
